@@ -25,6 +25,10 @@ where
     let count = self.count;
 
     Observable::<Item>::create(move |s| {
+      if count == 0 {
+        s.complete();
+        return;
+      }
       let n = Arc::new(RwLock::new(0));
 
       let sctl = StreamController::new(s);
